@@ -218,7 +218,7 @@ fn gen_small_rot(p: &Pools, rng: &mut Rng, pb: &mut PB) {
         (e[i], v)
     } else { let (e1, _e2, e3) = frame(p, rng); (e3, e1) };
     // Euler extraction is exact only outside the gimbal-lock cone: no angle next to a quarter turn there (index 7)
-    let dc = loop { let i = rng.range(0, 9); if !(route == "to_euler" && i == 7) { break i; } };
+    let dc = loop { let i = rng.range(0, 11); if !(route == "to_euler" && i == 7) { break i; } };
     let a = [pb.load(t(ty)), pb.load(t(route)), pb.load(Val::V3(n)), pb.load(Val::V3(v)), pb.load(Val::I(dc))];
     pb.call("small_rot_proj", "m", &a);
 }
@@ -1391,41 +1391,47 @@ fn cover_small_rot(p: &Pools, rng: &mut Rng, out: &mut Vec<String>, pid: &mut u6
         let regs: Vec<usize> = a.into_iter().map(|v| pb.load(v)).collect();
         pb.call("small_rot_proj", "m", &regs);
         *pid += 1;
-        if let Some(s) = pb.finish(*pid, &["Q", "f64"]) { out.push(s); }
+        if let Some(s) = pb.finish(*pid, &["Q", "f64", "f32"]) { out.push(s); }
     };
     for (ty, routes) in all {
         for route in routes.iter() {
             let on_axis = matches!(*route, "from_angle" | "euler" | "to_euler");
             if euler_only && !matches!(*route, "euler" | "to_euler") { continue; }
-            for dc in 0..10i64 {
+            for dc in 0..12i64 {
                 if *route == "to_euler" && dc == 7 { continue; }
                 // about a coordinate axis
                 let i = rng.below(3);
                 let u = uv2(p, rng);
                 let v = match i { 0 => Vector3::new(z, u.x, u.y), 1 => Vector3::new(u.x, z, u.y), _ => Vector3::new(u.x, u.y, z) };
                 emit(vec![t(ty), t(route), Val::V3(e[i]), Val::V3(v), Val::I(dc)], out);
+                // ... and a vector with a component along the axis
+                emit(vec![t(ty), t(route), Val::V3(e[i]), Val::V3(uv3(p, rng)), Val::I(dc)], out);
                 if !on_axis {
                     let (e1, _e2, e3) = frame(p, rng);
                     emit(vec![t(ty), t(route), Val::V3(e3), Val::V3(e1), Val::I(dc)], out);
+                    emit(vec![t(ty), t(route), Val::V3(e3), Val::V3(uv3(p, rng)), Val::I(dc)], out);
                 }
             }
         }
     }
     if !euler_only {
-        for ty in ["Basis2", "Matrix2"] { for route in ["direct", "invert", "compose"] { for dc in 0..10i64 {
+        for ty in ["Basis2", "Matrix2"] { for route in ["direct", "invert", "compose"] { for dc in 0..12i64 {
             emit(vec![t(ty), t(route), Val::V2(uv2(p, rng)), Val::I(dc)], out);
         } } }
     }
 }
 
 /// one single-call program (pipeline C sweeps)
-fn emit1(op: &str, a: Vec<V>, out: &mut Vec<String>, pid: &mut u64) {
+fn emit1(op: &str, a: Vec<V>, out: &mut Vec<String>, pid: &mut u64) { emit1s(op, a, &["Q", "f64"], out, pid) }
+/// ... at the listed scalar types (f32 only where the projection's table makes sense in single precision)
+fn emit1s(op: &str, a: Vec<V>, scs: &[&str], out: &mut Vec<String>, pid: &mut u64) {
     let mut pb = PB::new();
     let regs: Vec<usize> = a.into_iter().map(|v| pb.load(v)).collect();
     pb.call(op, "m", &regs);
     *pid += 1;
-    if let Some(s) = pb.finish(*pid, &["Q", "f64"]) { out.push(s); }
+    if let Some(s) = pb.finish(*pid, scs) { out.push(s); }
 }
+const F2: &[&str] = &["Q", "f64", "f32"];
 /// homogeneity sweeps: every function of the profile with every factor of the recorder's table it is defined for
 fn cover_scale(profile: &str, p: &Pools, rng: &mut Rng, out: &mut Vec<String>, pid: &mut u64) {
     // indices into exec_proj::SCALES: 0..3 next to 1, 4..9 = 1e-3 1e3 1e-9 1e9 1e-17 1e17, 10 = -1e-6, 11 12 = 1e-150 1e150, 13 = 1e-170
@@ -1434,10 +1440,12 @@ fn cover_scale(profile: &str, p: &Pools, rng: &mut Rng, out: &mut Vec<String>, p
     let fns: &[(&str, &[&[i64]])] = match profile {
         "C01" => &[("m4_transform_point", &[NEAR, MID, &[10, 11, 12]]), ("m4_det", &[NEAR, MID, &[10]]), ("m3_det", &[NEAR, MID, &[10]])],
         "C02" => &[("m4_invert", &[NEAR, MID, &[10]]), ("m4_inverse_transform", &[NEAR, MID, &[10]]), ("m3_invert", &[NEAR, MID, &[10]]), ("m2_invert", &[NEAR, MID, &[10]])],
-        "C03" => &[("v3_cross", &[NEAR, MID, &[10, 11, 12]]), ("v3_dot", &[NEAR, MID, &[10, 11, 12]])],
+        "C03" => &[("v3_cross", &[NEAR, MID, &[10, 11, 12]]), ("v3_dot", &[NEAR, MID, &[10, 11, 12]]), ("v2_perp_dot", &[NEAR, MID, &[10, 11, 12]]),
+                   ("v3_cross_both", &[NEAR, MID, &[10, 11, 12]]), ("v3_dot_both", &[NEAR, MID, &[10, 11, 12]]), ("v2_perp_dot_both", &[NEAR, MID, &[10, 11, 12]])],
         "C04" => &[("q_invert", &[NEAR, MID, &[10]]), ("q_normalize", &[NEAR, MID])],
         "C11" => &[("v3_normalize", &[NEAR, MID]), ("v2_normalize", &[NEAR, MID]), ("v4_normalize", &[NEAR, MID]), ("q_normalize", &[NEAR, MID]), ("v3_magnitude", &[NEAR, MID, &[10]]),
-                   ("v3_angle", &[NEAR, MID]), ("v2_angle", &[NEAR, MID]), ("v3_project_on", &[NEAR, MID, &[10]])],
+                   ("v3_angle", &[NEAR, MID]), ("v2_angle", &[NEAR, MID]), ("v3_project_on", &[NEAR, MID, &[10]]),
+                   ("v3_angle_both", &[NEAR, MID, &[10]]), ("v2_angle_both", &[NEAR, MID, &[10]]), ("v3_project_on_both", &[NEAR, MID, &[10]])],
         "C12" => &[("from_homogeneous", &[NEAR, MID, &[10, 11, 12]])],
         "C15" => &[("from_arc", &[NEAR, &[4, 5]])],
         "C18" => &[("v3_is_zero", &[NEAR, MID, &[10, 11, 12, 13]]), ("v4_is_zero", &[NEAR, MID, &[10, 11, 12, 13]]), ("v2_is_zero", &[NEAR, MID, &[10, 11, 12, 13]])],
@@ -1470,14 +1478,23 @@ fn cover_scale(profile: &str, p: &Pools, rng: &mut Rng, out: &mut Vec<String>, p
                 "v3_normalize" | "v3_magnitude" | "v3_is_zero" => vec![Val::V3(if _rep == 1 { uv3(p, rng) } else { nz3(rng) })],
                 "v2_normalize" | "v2_is_zero" => vec![Val::V2(Vector2::new(small_nz(rng), small(rng)))],
                 "v4_normalize" | "v4_is_zero" => vec![Val::V4(nz3(rng).extend(small(rng)))],
-                "v2_angle" => vec![Val::V2(Vector2::new(small_nz(rng), small(rng))), Val::V2(Vector2::new(small(rng), small_nz(rng)))],
+                "v2_angle" | "v2_angle_both" | "v2_perp_dot" | "v2_perp_dot_both" => vec![Val::V2(Vector2::new(small_nz(rng), small(rng))), Val::V2(Vector2::new(small(rng), small_nz(rng)))],
                 "from_arc" => { let (a, b) = loop { let (a, b) = (nz3(rng), nz3(rng)); let c = a.cross(b); if c.x.n != 0 || c.y.n != 0 || c.z.n != 0 { break (a, b); } }; vec![Val::V3(a), Val::V3(b)] }
                 _ => { let (a, b) = loop { let (a, b) = (nz3(rng), nz3(rng)); let c = a.cross(b); if (c.x.n != 0 || c.y.n != 0 || c.z.n != 0) && a.dot(b).n != 0 { break (a, b); } }; vec![Val::V3(a), Val::V3(b)] }
             };
             let mut a = vec![t(fname), Val::I(kc)];
             a.extend(args);
-            emit1("scale_proj", a, out, pid);
+            if kc <= 5 { emit1s("scale_proj", a, F2, out, pid); } else { emit1("scale_proj", a, out, pid); }
         } } }
+    }
+    if profile == "C01" {
+        for code in 0..6 { for _ in 0..3 {
+            let c3 = |rng: &mut Rng| rv3(rng);
+            let aff = |rng: &mut Rng| Matrix4::from_cols(c3(rng).extend(q(0, 1)), c3(rng).extend(q(0, 1)), c3(rng).extend(q(0, 1)), c3(rng).extend(q(1, 1)));
+            emit1s("mm_col_proj", vec![Val::M4(aff(rng)), Val::M4(aff(rng)), Val::I(code)], F2, out, pid);
+            let aff2 = |rng: &mut Rng| Matrix3::from_cols(rv2(rng).extend(q(0, 1)), rv2(rng).extend(q(0, 1)), rv2(rng).extend(q(1, 1)));
+            emit1s("mm_col_proj", vec![Val::M3(aff2(rng)), Val::M3(aff2(rng)), Val::I(code)], F2, out, pid);
+        } }
     }
     if profile == "C03" {
         for gc in 0..4 { for _ in 0..4 {
@@ -1506,16 +1523,26 @@ fn cover_proj(profile: &str, p: &Pools, rng: &mut Rng, out: &mut Vec<String>, pi
             } } }
         }
         "C11" => {
+            for dc in 0..4 { for anti in [false, true] { for (s1, s2) in [(q(1, 1), q(1, 1)), (q(1000, 1), q(1, 1000)), (q(7, 2), q(1, 40))] {
+                for _ in 0..2 { let (e1, e2, _e3) = frame(p, rng);
+                    emit1("angle_near_proj", vec![Val::V3(e1), Val::V3(e2), Val::I(dc), Val::B(anti), vs(s1), vs(s2)], out, pid); }
+                for cw in [false, true] {
+                    emit1("angle_near_proj", vec![Val::V2(uv2(p, rng)), Val::I(dc), Val::B(anti), Val::B(cw), vs(s1), vs(s2)], out, pid); }
+            } } }
             for ty in 0..4 { for gc in 0..6 { for neg in [false, true] {
                 let x = match ty { 0 => Val::V2(uv2(p, rng)), 1 => Val::V3(uv3(p, rng)),
                                    2 => { let u = uq(p, rng); Val::V4(Vector4::new(u.s, u.v.x, u.v.y, u.v.z)) } _ => Val::Q(uq(p, rng)) };
-                emit1("norm_proj", vec![x, Val::I(gc), Val::B(neg)], out, pid);
+                emit1s("norm_proj", vec![x, Val::I(gc), Val::B(neg)], F2, out, pid);
             } } }
         }
         "C13" => {
             for m in [7i128, 100, 5000, 100_000, 1_000_000, 3_000_000] { for sg in [1i128, -1] {
-                emit1("trig_big_proj", vec![vs(q(sg * (3 * m + 1), 3))], out, pid);
+                emit1s("trig_big_proj", vec![vs(q(sg * (3 * m + 1), 3))], F2, out, pid);
             } }
+            // inside the first turn: next to 0, to a quarter and to a half turn, and a generic angle (all seven functions)
+            for x in [q(1, 1000), q(1, 1_000_000), q(1, 1_000_000_000), q(314, 100), q(15707, 10000), q(7, 10), q(10003, 10), q(-3, 1000), q(2, 1)] {
+                emit1s("trig_big_proj", vec![vs(x)], F2, out, pid);
+            }
         }
         "C08" => {
             for kind in ["Matrix4", "Matrix4_invert", "Matrix3", "Matrix3_invert", "DecQ", "Dec3", "DecQ_vector"] {
@@ -1523,16 +1550,26 @@ fn cover_proj(profile: &str, p: &Pools, rng: &mut Rng, out: &mut Vec<String>, pi
                 if kind.starts_with("Matrix") { scales.push(q(1, 10_000_000)); scales.push(q(-1, 100_000_000)); }
                 for sc in scales {
                     let nz3 = |rng: &mut Rng| Vector3::new(small_nz(rng), small_nz(rng), small_nz(rng));
-                    emit1("tiny_inv_proj", vec![t(kind), vs(sc), Val::Q(uq(p, rng)), Val::V3(nz3(rng)), Val::V3(nz3(rng))], out, pid);
+                    emit1s("tiny_inv_proj", vec![t(kind), vs(sc), Val::Q(uq(p, rng)), Val::V3(nz3(rng)), Val::V3(nz3(rng))], F2, out, pid);
                 }
             }
         }
         "C10" => {
             for ctor in ["perspective", "perspective_fov", "frustum", "perspective_struct", "ortho", "planar"] {
+                for n in [q(1, 1000), q(1, 2), q(1, 1), q(10, 1)] { for rc in 0..4 {
+                    emit1s("deep_proj", vec![t(ctor), vs(n), Val::I(rc)], F2, out, pid);
+                } }
+            }
+            for ctor in ["perspective", "perspective_fov", "frustum", "perspective_struct", "ortho", "planar"] {
                 for n in [q(1, 2), q(1, 1), q(3, 1), q(10, 1), q(250, 1), q(1, 16)] { for gc in 0..4 {
                     emit1("slab_proj", vec![t(ctor), vs(n), Val::I(gc)], out, pid);
                 } }
             }
+        }
+        "C14" => {
+            for which in ["nlerp", "slerp"] { for dc in 0..5 { for opp in [false, true] { for _ in 0..2 {
+                emit1s("lerp_end_proj", vec![t(which), Val::Q(uq(p, rng)), Val::V3(uv3(p, rng)), Val::I(dc), Val::B(opp)], F2, out, pid);
+            } } } }
         }
         "C09" => {
             // every look_* entry point with up and dir over nine orders of magnitude
@@ -1560,8 +1597,38 @@ fn cover_proj(profile: &str, p: &Pools, rng: &mut Rng, out: &mut Vec<String>, pi
                             "rot_look_at" => { a.push(t(ty)); a.push(Val::V3(dir)); a.push(Val::V3(up)); }
                             _ => { a.push(t(ty)); a.push(Val::P3(eye)); a.push(Val::P3(eye + dir)); a.push(Val::V3(up)); }
                         }
-                        emit1("look_proj", a, out, pid);
+                        emit1s("look_proj", a, F2, out, pid);
                     }
+                }
+            }
+            // ... and far beyond what a rational of the model can express: scaled natively by powers of ten
+            let entries2: Vec<(&str, &str, &str)> = vec![
+                ("mat3_look_to", "lh", ""), ("mat3_look_to", "rh", ""), ("mat3_look_to", "dep", ""),
+                ("mat4_look_to", "lh", ""), ("mat4_look_to", "rh", ""), ("mat4_look_to", "dep", ""),
+                ("mat4_look_at", "lh", ""), ("mat4_look_at", "rh", ""), ("mat4_look_at", "dep", ""),
+                ("rot_look_at", "m", "Quaternion"), ("rot_look_at", "m", "Basis3"),
+                ("tf_look_at", "dep", "Matrix4"), ("tf_look_at", "rh", "Matrix4"), ("tf_look_at", "lh", "Matrix4"),
+                ("tf_look_at", "dep", "Matrix3_3"), ("tf_look_at", "rh", "Matrix3_3"), ("tf_look_at", "lh", "Matrix3_3"),
+                ("tf_look_at", "dep", "DecQ"), ("tf_look_at", "rh", "DecQ"), ("tf_look_at", "lh", "DecQ"),
+                ("tf_look_at", "dep", "Dec3"), ("tf_look_at", "rh", "Dec3"), ("tf_look_at", "lh", "Dec3")];
+            for (inner, form, ty) in entries2 {
+                let at = inner == "mat4_look_at" || inner == "tf_look_at";
+                for (ue, de) in [(-17i64, 0i64), (-30, 0), (17, 0), (0, -17), (-9, 9), (3, -3), (0, 17)] {
+                    if at && de < 0 { continue; }      // center = eye + dir * 10^de would be absorbed by the eye
+                    let iv = |rng: &mut Rng| Vector3::new(Q::int(rng.range(-6, 6) as i128), Q::int(rng.range(-6, 6) as i128), Q::int(rng.range(-6, 6) as i128));
+                    // oblique: up neither parallel nor perpendicular to dir
+                    let (dir, up) = loop { let (d0, u0) = (iv(rng), iv(rng)); let c = d0.cross(u0); if (c.x.n != 0 || c.y.n != 0 || c.z.n != 0) && d0.dot(u0).n != 0 { break (d0, u0); } };
+                    let eye = if at && de > 3 { Point3::new(q(0, 1), q(0, 1), q(0, 1)) } else { Point3::from_vec(iv(rng)) };
+                    let mut a = vec![t(inner), t(form), Val::I(ue), Val::I(de)];
+                    match inner {
+                        "mat3_look_to" => { a.push(Val::V3(dir)); a.push(Val::V3(up)); }
+                        "mat4_look_to" => { a.push(Val::P3(eye)); a.push(Val::V3(dir)); a.push(Val::V3(up)); }
+                        "mat4_look_at" => { a.push(Val::P3(eye)); a.push(Val::P3(eye + dir)); a.push(Val::V3(up)); }
+                        "rot_look_at" => { a.push(t(ty)); a.push(Val::V3(dir)); a.push(Val::V3(up)); }
+                        _ => { a.push(t(ty)); a.push(Val::P3(eye)); a.push(Val::P3(eye + dir)); a.push(Val::V3(up)); }
+                    }
+                    // single precision only where squares of the scaled lengths stay inside its range
+                    if ue.abs() <= 9 && de.abs() <= 9 { emit1s("look_mag_proj", a, F2, out, pid); } else { emit1("look_mag_proj", a, out, pid); }
                 }
             }
         }
